@@ -2,6 +2,8 @@
 OM = "hippolyzer/lib/client/object_manager.py"
 EV = "hippolyzer/lib/base/events.py"
 POM = "hippolyzer/lib/proxy/object_manager.py"
+LLUDP = "hippolyzer/lib/proxy/lludp_proxy.py"
+TMPL = "hippolyzer/lib/base/templates.py"
 
 _UNPARENT_LOOP = (
     "        former_child_ids = obj.ChildIDs[:]\n"
@@ -278,6 +280,29 @@ VARIANTS = [
     {"name": "P R2 only logging between the two index updates", "file": OM, "expect": "silent",
      "old": "        region.track_object(obj)\n        self._fullid_lookup[obj.FullID] = obj\n",
      "new": "        region.track_object(obj)\n        LOG.debug(\"Tracking %r\", obj)\n        self._fullid_lookup[obj.FullID] = obj\n"},
+    # ---- round 7: registration symmetry, PCode table
+    {"name": "R8 handshake registers the region only while its cache is unloaded", "file": LLUDP, "expect": "C14.R8",
+     "old": "            self.session.objects.track_region_objects(region.handle)\n",
+     "new": "            if not region.objects.cache_loaded:\n                self.session.objects.track_region_objects(region.handle)\n"},
+    {"name": "P R8 handshake registers before it records the cache id, guarded by the handle", "file": LLUDP, "expect": "silent",
+     "old": "            region.cache_id = message[\"RegionInfo\"][\"CacheID\"]\n"
+            "            self.session.objects.track_region_objects(region.handle)\n",
+     "new": "            if region.handle is not None:\n                self.session.objects.track_region_objects(region.handle)\n"
+            "            region.cache_id = message[\"RegionInfo\"][\"CacheID\"]\n"},
+    {"name": "R8 teardown releases the region only when it saw coarse locations", "file": OM, "expect": "C14.R8",
+     "old": "        if self._region.handle is not None:\n            # We're tracked",
+     "new": "        if self._region.handle is not None and self.state.coarse_locations:\n            # We're tracked"},
+    {"name": "P R8 teardown with the handle in a local", "file": OM, "expect": "silent",
+     "old": "        if self._region.handle is not None:\n            # We're tracked by the world object manager, tell it to untrack\n"
+            "            # any objects that we owned\n            self._world_objects.untrack_region_objects(self._region.handle)\n",
+     "new": "        handle = self._region.handle\n        if handle is None:\n            return\n"
+            "        self._world_objects.untrack_region_objects(handle)\n"},
+    {"name": "R8 object-state table without a default row", "file": TMPL, "expect": "C14.R8",
+     "old": "                se.MISSING: se.IdentityAdapter(),\n", "new": "                PCode.TREE: se.IdentityAdapter(),\n"},
+    {"name": "P R8 object-state table with explicit plant rows and the default", "file": TMPL, "expect": "silent",
+     "old": "                se.MISSING: se.IdentityAdapter(),\n",
+     "new": "                PCode.TREE: se.IdentityAdapter(),\n                PCode.GRASS: se.IdentityAdapter(),\n"
+            "                se.MISSING: se.IdentityAdapter(),\n"},
     # ---- documented limits
     {"name": "X missing_locals bookkeeping dropped (not observed by the statement)", "file": OM, "expect": "miss",
      "old": "        self.missing_locals -= {obj.LocalID}\n", "new": ""},
